@@ -1,14 +1,35 @@
 (* C11 - Selecting outputs / supplying intermediates keeps values, runs only needed work.
-   Only statements here; every proof is `exact <lemma>` into Proofs/SubPipeFacts.v.
-   SubPipe.subpipeline = model of Pipeline.subpipeline (repaired code: fixes 808996e, 5096f67), which
-   prepare_run applies for map(output_names=S) / map(auto_subpipeline=True); Pipe.eval / Pipe.needed_top =
+   Only statements here; every proof is `exact <lemma>` into Proofs/SubPipeFacts.v / Proofs/C11Capstone.v.
+   SubPipe.subpipeline = model of Pipeline.subpipeline (repaired code: fixes 808996e, 5096f67, 92d2388, f1919c8),
+   which prepare_run applies for map(output_names=S) / map(auto_subpipeline=True); Pipe.eval / Pipe.needed_top =
    specification of C02; kw = the provided names I with their values.
-   STATUS: values / kept-needed / rejection of uncomputable requests are proved in full.  "Exactly the needed
-   functions" and "every computable request is accepted" are REFUTED for the code as it is (known findings
-   c11-cutoff-producer-kept, c11-needed-without-provided-ancestor, ...); the exactness is proved under the guard
-   "only root arguments are provided".  No theorem is proved for acceptance (see the FULL block below). *)
-From Verif Require Import Base.Prelude Base.StrOrd Base.Graph Model.Pipe Model.SubPipe
-                          Proofs.GraphFacts Proofs.PipeFacts Proofs.SubPipeFacts.
+   STATUS: for the repaired code (the kept set is the set of functions the outputs depend on, cut at the provided
+   names) ALL statements are proved in full, for arbitrary cuts I: values, "exactly the needed functions",
+   rejection of uncomputable requests, acceptance of computable requests (by subpipeline and by map), "map calls
+   exactly the needed functions once".  The acceptance theorem has ONE guard, `dead_defaults_agree`; where it fails the code refuses a
+   computable request (witness C11_dead_defaults_refused, known finding c11-inconsistent-dead-defaults).
+   The map-level acceptance has a second guard (no provided name is an output of a needed function; witness
+   C11_map_rejects_supplied_output_of_kept_function, the other known finding).
+   The proofs rest on the completeness of Graph.ancestors and of Kahn layering (Proofs/GraphFacts.v). *)
+From Verif Require Import Base.Prelude Base.StrOrd Base.Graph Model.Pipe Model.SubPipe Corr.Run_C11
+                          Proofs.GraphFacts Proofs.PipeFacts Proofs.SubPipeFacts Proofs.C11Capstone.
+
+(* ---------- Graph.reach finds every path (fuel = number of nodes suffices) ---------- *)
+Theorem C11_descendants_complete : forall g n x, wf_graph g ->
+  (exists y, In (n, y) (edges g) /\ gpath g y x) -> x <> n -> In x (descendants g n).
+Proof. exact descendants_complete. Qed.
+Print Assumptions C11_descendants_complete.
+
+Theorem C11_ancestors_complete : forall g n x, wf_graph g -> gpath g x n -> x <> n -> In x (ancestors g n).
+Proof. exact ancestors_complete. Qed.
+Print Assumptions C11_ancestors_complete.
+
+(* Kahn layering succeeds on every graph that has a rank function (completeness of Graph.topo_generations) *)
+Theorem C11_topo_generations_complete : forall g (r : str -> nat),
+  (forall u v, In u (nodes g) -> In v (nodes g) -> In (u, v) (edges g) -> r u < r v) ->
+  exists ls, topo_generations g = Some ls.
+Proof. exact topo_generations_complete. Qed.
+Print Assumptions C11_topo_generations_complete.
 
 (* for every requested output the sub-pipeline computes the value of the full pipeline, with the provided
    values substituted (for every fuel, in particular for eval_top of either pipeline) *)
@@ -18,12 +39,35 @@ Theorem C11_subpipeline_values : forall body pick p Ip Sq p' kw,
 Proof. exact subpipeline_values. Qed.
 Print Assumptions C11_subpipeline_values.
 
-(* every function on a dependency path to S that is not cut off by I is kept *)
-Theorem C11_subpipeline_keeps_needed : forall p Ip Sq p' kw,
+(* the functions of the sub-pipeline are functions of p (only defaults may be restored) *)
+Theorem C11_subpipeline_functions : forall p Ip Sq p',
+  subpipeline p Ip (Some Sq) = Ok p' ->
+  forall f', In f' p' -> exists f, In f p /\ fname f' = fname f /\ outs f' = outs f /\ params f' = params f
+                                   /\ bound f' = bound f /\ cached f' = cached f.
+Proof. exact subpipeline_functions. Qed.
+Print Assumptions C11_subpipeline_functions.
+
+(* EXACTLY the functions on a dependency path to S that are not cut off by I are kept - for EVERY cut I
+   (formerly refuted by f0(x) -> a; f3(x, a) -> y; I = {x, a}; S = {y}, and proved only for root-argument cuts) *)
+Theorem C11_subpipeline_needed_exact : forall p Ip Sq p' kw,
   wf_pipeline p -> subpipeline p Ip (Some Sq) = Ok p' -> (forall k, In k (akeys kw) <-> In k Ip) ->
-  forall o f, In o Sq -> In f (needed_top p kw o) -> In f p'.
-Proof. exact subpipeline_keeps_needed. Qed.
-Print Assumptions C11_subpipeline_keeps_needed.
+  forall f, In f p -> (In (fid f) (map fid p') <-> exists o, In o Sq /\ In f (needed_top p kw o)).
+Proof. exact subpipeline_needed_exact. Qed.
+Print Assumptions C11_subpipeline_needed_exact.
+
+(* the same in the executable form the correspondence check evaluates *)
+Theorem C11_subpipeline_needed_exact_set : forall p Ip Sq p',
+  wf_pipeline p -> subpipeline p Ip (Some Sq) = Ok p' -> seteq_str (map fid p') (needed_set p Ip Sq) = true.
+Proof. exact subpipeline_needed_exact_set. Qed.
+Print Assumptions C11_subpipeline_needed_exact_set.
+
+(* the producers of the requested outputs are always among the kept functions (so the later check of
+   Pipeline.subpipeline that every requested output survived can only fire for a name that is no output of p) *)
+Theorem C11_requested_outputs_survive : forall p Ip Sq outs,
+  mapM (node_of p) Sq = Ok outs ->
+  forall o, In o Sq -> is_output p o = true -> is_output (keep p (required p Ip outs)) o = true.
+Proof. exact requested_outputs_survive. Qed.
+Print Assumptions C11_requested_outputs_survive.
 
 (* when S is not computable from I (an unknown output, or a needed parameter without value) the request is rejected *)
 Theorem C11_uncomputable_rejected : forall p Ip Sq kw,
@@ -33,33 +77,35 @@ Theorem C11_uncomputable_rejected : forall p Ip Sq kw,
 Proof. exact uncomputable_rejected. Qed.
 Print Assumptions C11_uncomputable_rejected.
 
-(* FULL: forall p I S p', wf_pipeline p -> computableb p I S = true -> all_readb p I S = true ->
-         subpipeline p I (Some S) = Ok p' -> seteq_str (map fid p') (needed_set p I S) = true.
-   Refuted (witness: f0(x) -> a; f3(x, a) -> y; I = {x, a}; S = {y}: f0 is kept although a cuts it off). *)
-Theorem C11_subpipeline_needed_exact_refuted :
-  exists p Ip Sq p', wf_pipeline p /\ computableb p Ip Sq = true /\ all_readb p Ip Sq = true
-    /\ subpipeline p Ip (Some Sq) = Ok p' /\ seteq_str (map fid p') (needed_set p Ip Sq) = false.
-Proof. exact subpipeline_needed_exact_refuted. Qed.
-Print Assumptions C11_subpipeline_needed_exact_refuted.
+(* every computable request is accepted (formerly refuted by const() -> k; f(x, k) -> y; I = {x}; S = {y}).
+   Hypotheses: the provided names are names of the pipeline; `dead_defaults_agree`: the needed functions agree on
+   the defaults of every intermediate name that no needed function produces *)
+Theorem C11_computable_accepted : forall p Ip Sq kw,
+  wf_pipeline p -> (forall k, In k (akeys kw) <-> In k Ip) ->
+  (forall k, In k Ip -> is_output p k = true \/ In k (root_arg_names p)) ->
+  (forall o, In o Sq -> is_output p o = true /\ sufficient p kw o) ->
+  dead_defaults_agree p kw Sq ->
+  exists p', subpipeline p Ip (Some Sq) = Ok p'.
+Proof. exact computable_accepted. Qed.
+Print Assumptions C11_computable_accepted.
 
-(* ... and proved when only root arguments are provided (the use of map(inputs, output_names=S)) *)
-Theorem C11_subpipeline_needed_exact_partial : forall p Ip Sq p' kw,
-  wf_pipeline p -> subpipeline p Ip (Some Sq) = Ok p' -> (forall k, In k (akeys kw) <-> In k Ip) ->
-  (forall k, In k Ip -> is_output p k = false) ->
-  forall f, In f p -> (In f p' <-> exists o, In o Sq /\ In f (needed_top p kw o)).
-Proof. exact subpipeline_needed_exact_roots. Qed.
-Print Assumptions C11_subpipeline_needed_exact_partial.
+(* the guard cannot be dropped: h() -> a; f(x, a=1) -> b; g(b, a=2) -> c; I = {a, x}; S = {c} is refused *)
+Theorem C11_dead_defaults_refused :
+  wf_pipelineb w_dead = true /\ computableb w_dead [s "a"; s "x"] [s "c"] = true
+  /\ all_readb w_dead [s "a"; s "x"] [s "c"] = true
+  /\ subpipeline w_dead [s "a"; s "x"] (Some [s "c"]) = Err ValueError.
+Proof. exact dead_defaults_witness. Qed.
+Print Assumptions C11_dead_defaults_refused.
 
-(* FULL: forall p I S, wf_pipeline p -> computableb p I S = true -> all_readb p I S = true ->
-         exists p', subpipeline p I (Some S) = Ok p'.
-   Refuted (witness: const() -> k; f(x, k) -> y; I = {x}; S = {y}).  A guarded version ("every needed function is a
-   descendant of a provided input, no kept function is cut off, no shared default is lost") is NOT proved:
-   it needs the completeness of Graph.reach, which is only checked against networkx by correspondence. *)
-Theorem C11_computable_accepted_refuted :
-  exists p Ip Sq, wf_pipeline p /\ computableb p Ip Sq = true /\ all_readb p Ip Sq = true
-    /\ subpipeline p Ip (Some Sq) = Err ValueError.
-Proof. exact computable_accepted_refuted. Qed.
-Print Assumptions C11_computable_accepted_refuted.
+(* the two former refutation witnesses: accepted, and exactly the needed function kept *)
+Theorem C11_former_witnesses :
+  (wf_pipelineb w_nullary = true /\ computableb w_nullary [s "x"] [s "y"] = true
+   /\ subpipeline w_nullary [s "x"] (Some [s "y"]) = Ok w_nullary)
+  /\ (wf_pipelineb w_mixed = true /\ computableb w_mixed [s "x"; s "a"] [s "y"] = true
+      /\ needed_set w_mixed [s "x"; s "a"] [s "y"] = [s "y"]
+      /\ subpipeline w_mixed [s "x"; s "a"] (Some [s "y"]) = Ok [mkf (s "f3") [s "y"] [(s "x", s "x"); (s "a", s "a")] [] [] false]).
+Proof. exact former_witnesses. Qed.
+Print Assumptions C11_former_witnesses.
 
 (* Pipeline.map(inputs, output_names=S [, auto_subpipeline=True]) on a pipeline without MapSpecs: the results for S
    are the values of the full pipeline with the provided values substituted; the functions called are exactly the
@@ -68,20 +114,50 @@ Theorem C11_map_values_and_calls : forall body pick p inputs Sq auto store lg,
   wf_pipeline p -> map_run body pick p inputs (Some Sq) auto = Ok (store, lg) ->
   exists p', subpipeline p (akeys inputs) (Some Sq) = Ok p'
     /\ (forall o, In o Sq -> exists v, aget store o = Some v /\ eval_top body pick p inputs o = Ok v)
-    /\ (forall f, In f p -> (In f p' <-> In (fname f) (map fst lg)))
+    /\ (forall f, In f p -> (In (fid f) (map fid p') <-> In (fname f) (map fst lg)))
     /\ NoDup (map fst lg).
 Proof. exact map_run_spec. Qed.
 Print Assumptions C11_map_values_and_calls.
 
-(* calls_exactly_needed, guarded like the exactness above (FULL statement: without the root-only hypothesis;
-   refuted by the same witness as C11_subpipeline_needed_exact_refuted) *)
-Theorem C11_calls_exactly_needed_partial : forall body pick p inputs Sq auto store lg,
+(* calls_exactly_needed, in full: whatever names are provided (roots or intermediates) *)
+Theorem C11_calls_exactly_needed : forall body pick p inputs Sq auto store lg,
   wf_pipeline p -> map_run body pick p inputs (Some Sq) auto = Ok (store, lg) ->
-  (forall k, In k (akeys inputs) -> is_output p k = false) ->
   NoDup (map fst lg)
   /\ forall f, In f p -> (In (fname f) (map fst lg) <-> exists o, In o Sq /\ In f (needed_top p inputs o)).
 Proof. exact map_calls_exactly_needed. Qed.
-Print Assumptions C11_calls_exactly_needed_partial.
+Print Assumptions C11_calls_exactly_needed.
+
+(* ACCEPTANCE at the level of Pipeline.map: a computable request map(inputs, output_names=S [, auto_subpipeline])
+   is accepted and runs to completion (user functions that do not raise), outside the two known-finding regions:
+   `dead_defaults_agree` (c11-inconsistent-dead-defaults) and "no provided name is an output of a needed function"
+   (c11-map-rejects-supplied-output-of-kept-function); every provided name must be read by a needed function
+   (otherwise _validate_complete_inputs rejects it as an extra input, which the property allows) *)
+Theorem C11_map_computable_accepted : forall body pick p inputs Sq auto,
+  wf_pipeline p -> (forall f a, exists r, body f a = Ok r) ->
+  (forall o, In o Sq -> is_output p o = true /\ sufficient p inputs o) ->
+  dead_defaults_agree p inputs Sq ->
+  (forall k, In k (akeys inputs) ->
+     exists o f, In o Sq /\ In f (needed_top p inputs o) /\ In k (pnames f) /\ aget (bound f) k = None) ->
+  (forall k, In k (akeys inputs) -> forall o f, In o Sq -> In f (needed_top p inputs o) -> ~ In k (outs f)) ->
+  exists store lg, map_run body pick p inputs (Some Sq) auto = Ok (store, lg).
+Proof. exact map_computable_accepted. Qed.
+Print Assumptions C11_map_computable_accepted.
+
+(* the second guard cannot be dropped: f(x) -> (a, c); h(a, c) -> d; inputs {x, a}; S = {d} *)
+Theorem C11_map_rejects_supplied_output_of_kept_function :
+  wf_pipelineb w_k2 = true /\ computableb w_k2 [s "x"; s "a"] [s "d"] = true
+  /\ all_readb w_k2 [s "x"; s "a"] [s "d"] = true
+  /\ subpipeline w_k2 [s "x"; s "a"] (Some [s "d"]) = Ok w_k2
+  /\ map_run Sym.body Sym.pick w_k2 [(s "x", s "1"); (s "a", s "A")] (Some [s "d"]) false = Err ValueError.
+Proof. exact k2_witness. Qed.
+Print Assumptions C11_map_rejects_supplied_output_of_kept_function.
+
+(* CAPSTONE for the case kind CSub: outside the one remaining known-finding region the executable statement of
+   the correspondence check holds of the model's observation, for every case *)
+Theorem C11_sub_capstone : forall p Ip Sq, dead_defaults_okb p Ip Sq = true ->
+  spec_ok (CSub p Ip Sq) (run (CSub p Ip Sq)) = true.
+Proof. exact sub_capstone. Qed.
+Print Assumptions C11_sub_capstone.
 
 (* ---------- non-vacuity ---------- *)
 Definition ex_p : pipeline :=
